@@ -4,7 +4,7 @@
 From ClapModel Require Import Base.Bytes Base.Machine.
 From ClapModel Require Import Parse.Cmd Parse.Build Parse.Errors Parse.Validator Parse.Parser.
 From ClapModel Require Import Reentrancy.ReentrancyModel Reentrancy.ReentrancyProofs Reentrancy.ReentrancyParse.
-From ClapModel Require Import Reentrancy.ReentrancyDym Reentrancy.ReentrancyGlobals Reentrancy.ReentrancyMsg Reentrancy.ReentrancyBuild Reentrancy.ReentrancyMarks.
+From ClapModel Require Import Reentrancy.ReentrancyDym Reentrancy.ReentrancyGlobals Reentrancy.ReentrancyMsg Reentrancy.ReentrancyBuild Reentrancy.ReentrancyMarks Reentrancy.ReentrancyMarksMsg.
 From ClapModel Require Import Parse.Valid Parse.Matcher ParseProofs.Dispatch.
 From Coq Require Import List.
 From RecordUpdate Require Import RecordSet.
@@ -437,3 +437,21 @@ Theorem C11_usage_name_is_real : forall sty mem p k,
   usage_name_at (mid_string sty mem) p k = real_usage_name sty mem p k.
 Proof. exact usage_name_at_real. Qed.
 Print Assumptions C11_usage_name_is_real.
+
+(** ---- fourth pass (1)+(3): the message lines for histories that contain [build()], outside the family ---- *)
+
+(** the own definition of every visited level, modulo the marks *)
+Theorem C11_visited_levels_normal_form_modulo_marks : forall fuel c1 c2 toks st,
+  (forall n, clr (norm_children n c1) = clr (norm_children n c2)) ->
+  map visit_ownm (parse_trace fuel c1 toks st) = map visit_ownm (parse_trace fuel c2 toks st).
+Proof. exact trace_own_agreem. Qed.
+Print Assumptions C11_visited_levels_normal_form_modulo_marks.
+
+(** version line, real usage head and error after any history with [build()] calls = fresh *)
+Theorem C11_history_messages_build : forall sty mem h b c argv,
+  good_name b = true -> (forall k, quiet_tree k b c = true) -> xhist_okb b c h = true ->
+  argv_under b (xrun c h) argv = true -> argv_under b c argv = true ->
+  parse_lines (mid_string sty mem) (xrun c h) argv = parse_lines (mid_string sty mem) c argv
+  /\ err_of (fst (fst (parse_mut (xrun c h) argv))) = err_of (fst (fst (parse_mut c argv))).
+Proof. exact history_messages_build. Qed.
+Print Assumptions C11_history_messages_build.
